@@ -799,3 +799,559 @@ Qed.
 Theorem groups_exact ls :
   concat (ref_groups ls) = ls /\ Forall group_shape (ref_groups ls) /\ heads_ok (ref_groups ls).
 Proof. split; [apply ref_groups_concat|]. split; apply (ref_groups_shape ls). Qed.
+
+(* ================================================================== 9. pack / parse round trip *)
+Lemma list_eqb_true' (a : bytes) : forall b, list_eqb a b = true -> a = b.
+Proof.
+  induction a as [|x a IH]; intros [|y b]; cbn [list_eqb]; try discriminate; [reflexivity|].
+  intros H. apply andb_prop in H as [H1 H2]. apply N.eqb_eq in H1. subst. now rewrite (IH _ H2).
+Qed.
+
+(* what the regenerated table must satisfy for stored names to be re-readable: token names, short,
+   and no two records with the same name up to case (each name finds its own record) *)
+Definition tbl_entry_ok (r : N * list N * (bool * bool * bool * bool * bool)) : bool :=
+  let '(id, nm, _) := r in
+  forallb cs_TCHAR nm && negb (isnil nm) && (lenN nm <=? 65534) &&
+  match tbl_find hdr_table nm with Some (i, n) => (i =? id) && list_eqb n nm | None => false end.
+Lemma table_ok : forallb tbl_entry_ok hdr_table = true.
+Proof. vm_compute. reflexivity. Qed.
+
+(* an entry as HttpHeader stores it *)
+Definition stor (e : hentry) : Prop :=
+  he_name e <> [] /\ forallb cs_TCHAR (he_name e) = true /\ lenN (he_name e) <= 65534 /\
+  canon_name (he_name e) = (he_id e, he_name e) /\ NN (he_value e) /\ lenN (he_value e) <= 65534 /\
+  ltrim (he_value e) = he_value e /\ rtrim (he_value e) = he_value e.
+(* its value has no line structure left (always the case for messages that went through the unfolding pass) *)
+Definition single_line (v : bytes) : Prop := forallb (fun c => negb (c =? 13) && negb (c =? 10)) v = true.
+
+Lemma canon_stor name : name <> [] -> forallb cs_TCHAR name = true -> lenN name <= 65534 ->
+  let nm := snd (canon_name name) in
+  nm <> [] /\ forallb cs_TCHAR nm = true /\ lenN nm <= 65534 /\ canon_name nm = (fst (canon_name name), nm).
+Proof.
+  intros Hne Ht Hl. unfold canon_name at 1 2 3 5. pose proof (tbl_find_spec hdr_table name) as H.
+  destruct (tbl_find hdr_table name) as [[id nm]|] eqn:E; cbn [fst snd].
+  - destruct H as (_ & fl & Hin). pose proof table_ok as T. rewrite forallb_forall in T. specialize (T _ Hin).
+    cbn [tbl_entry_ok] in T. apply andb_prop in T as [T T4]. apply andb_prop in T as [T T3].
+    apply andb_prop in T as [T1 T2]. unfold canon_name.
+    destruct (tbl_find hdr_table nm) as [[i n]|]; [|discriminate]. apply andb_prop in T4 as [Ta Tb].
+    apply list_eqb_true' in Tb. apply N.eqb_eq in Ta. subst.
+    repeat split; [destruct nm; [discriminate|discriminate]|exact T1|lia].
+  - repeat split; [exact Hne|exact Ht|exact Hl|]. unfold canon_name. now rewrite E.
+Qed.
+
+Lemma lenN_rtrim l : lenN (rtrim l) <= lenN l.
+Proof. destruct (rtrim_exact l) as (b & Hb & _). rewrite Hb at 2. rewrite lenN_app. lia. Qed.
+
+Lemma rtrim_idem l : rtrim (rtrim l) = rtrim l.
+Proof. destruct (rtrim_exact l) as (_ & _ & _ & H). now apply rtrim_no_trail. Qed.
+
+Lemma ltrim_nonspace c r : c_isspace c = false -> ltrim (c :: r) = c :: r.
+Proof. intros H. unfold ltrim. cbn [span]. now rewrite H. Qed.
+
+Lemma ltrim_rtrim_ltrim x : ltrim (rtrim (ltrim x)) = rtrim (ltrim x).
+Proof.
+  destruct (ltrim_exact x) as (a & _ & _ & Hf). destruct (rtrim_exact (ltrim x)) as (b & Hb & _).
+  destruct (rtrim (ltrim x)) as [|c r]; [reflexivity|]. rewrite Hb in Hf. cbn [app] in Hf. now apply ltrim_nonspace.
+Qed.
+
+Lemma ref_split_stor req text name value : NN text -> ref_split req text = Some (name, value) ->
+  stor {| he_id := fst (canon_name name); he_name := snd (canon_name name); he_value := value |}.
+Proof.
+  intros Hnn H. pose proof (ref_split_NN _ _ _ _ Hnn H) as Hv. unfold ref_split in H.
+  destruct (ref_before_colon text) as [[rn rv]|]; [|discriminate].
+  set (nm0 := if req then rn else ref_trim_right rn) in *.
+  destruct (lenN nm0 =? 0) eqn:E0; [discriminate|]. destruct (65534 <? lenN rn) eqn:E1; [discriminate|].
+  destruct (forallb cs_TCHAR nm0) eqn:Et; [|discriminate]. cbn [orb negb] in H.
+  destruct (65534 <? lenN (ref_trim rv)) eqn:E2; [discriminate|]. injection H as <- <-.
+  assert (Hl : lenN nm0 <= 65534).
+  { subst nm0. destruct req; [lia|]. rewrite trim_right_rtrim. pose proof (lenN_rtrim rn). lia. }
+  assert (Hne : nm0 <> []) by (intros ->; cbn [lenN] in E0; lia).
+  destruct (canon_stor nm0 Hne Et Hl) as (A & B & C & D).
+  unfold stor. cbn [he_id he_name he_value]. repeat split; try assumption; [lia| |].
+  - unfold ref_trim. rewrite trim_right_rtrim, trim_left_ltrim. apply ltrim_rtrim_ltrim.
+  - unfold ref_trim. rewrite trim_right_rtrim, trim_left_ltrim. apply rtrim_idem.
+Qed.
+
+Lemma process_stor relaxed req : forall gs es, Forall (Forall NN) gs -> ref_process relaxed req gs = Some es ->
+  Forall stor es.
+Proof.
+  induction gs as [|g rest IH]; intros es Hnn H; cbn [ref_process] in H.
+  - injection H as <-. constructor.
+  - destruct (negb (ref_lines_ok relaxed req true g)); [discriminate|].
+    pose proof (Forall_inv Hnn) as Hg. pose proof (Forall_inv_tail Hnn) as Hr.
+    destruct (ref_group_text relaxed g) as [|b l] eqn:Et.
+    + destruct rest; [|discriminate]. injection H as <-. constructor.
+    + destruct (ref_field relaxed req g) as [e|] eqn:Ef; [|discriminate].
+      destruct (ref_process relaxed req rest) as [es'|] eqn:Er; [|discriminate]. injection H as <-.
+      constructor; [|exact (IH _ Hr eq_refl)].
+      unfold ref_field in Ef. rewrite Et in *.
+      destruct (ref_split req (b :: l)) as [[name value]|] eqn:Es; [|discriminate].
+      pose proof (ref_split_stor req (b :: l) name value) as S. rewrite <- Et in S.
+      specialize (S (NN_group_text relaxed g Hg)). rewrite Et in S. specialize (S Es).
+      destruct (canon_name name) as [id nm]. cbn [fst snd] in S.
+      match type of Ef with (if ?c then _ else _) = _ => destruct c end; [discriminate|]. injection Ef as <-. exact S.
+Qed.
+
+Lemma NN_groups ls : Forall NN ls -> Forall (Forall NN) (ref_groups ls).
+Proof.
+  intros H. apply Forall_forall. intros g Hg. apply Forall_forall. intros l Hl.
+  rewrite Forall_forall in H. apply H. rewrite <- (ref_groups_concat ls). apply in_concat. eauto.
+Qed.
+
+Lemma NN_of_nonul block : existsb (N.eqb 0) block = false -> NN block.
+Proof.
+  intros En. unfold NN. apply forallb_forall. intros x Hx. destruct (x =? 0) eqn:E; [|reflexivity].
+  assert (existsb (N.eqb 0) block = true); [|congruence].
+  apply existsb_exists. exists x. split; [exact Hx|]. apply N.eqb_eq in E. subst. reflexivity.
+Qed.
+
+Lemma ref_fields_stor relaxed req block fs : ref_fields relaxed req block = Some fs -> Forall stor fs.
+Proof.
+  unfold ref_fields. destruct (existsb (N.eqb 0) block) eqn:En; [discriminate|].
+  unfold ref_lines. rewrite ref_cut_is_split. destruct (split_lines block) as [ls rem] eqn:Es.
+  destruct rem; [|discriminate]. apply process_stor, NN_groups. exact (NN_lines _ _ _ (NN_of_nonul _ En) Es).
+Qed.
+
+(* ---- re-reading one stored entry ---- *)
+Definition line_of (e : hentry) : bytes := (he_name e ++ [58; 32] ++ he_value e) ++ [13].
+
+Lemma pack_is_join es : h_pack es = join_lines (map line_of es).
+Proof.
+  unfold h_pack, join_lines. rewrite map_map. f_equal. apply map_ext. intros e.
+  unfold pack_entry, line_of. now rewrite <- !app_assoc.
+Qed.
+
+Lemma forallb_tchar_imp (p : N -> bool) l : (forall c, cs_TCHAR c = true -> p c = true) ->
+  forallb cs_TCHAR l = true -> forallb p l = true.
+Proof. intros H. apply forallb_imp. exact H. Qed.
+
+Lemma single_line_nolf v : single_line v -> nolf v.
+Proof. apply forallb_imp. intros c H. now apply andb_prop in H as [_ H]. Qed.
+Lemma single_line_nocr v : single_line v -> existsb is_cr v = false.
+Proof.
+  induction v as [|c r IH]; intros H; [reflexivity|]. unfold single_line in *. cbn [forallb existsb] in *.
+  apply andb_prop in H as [Hc Hr]. rewrite (IH Hr). apply andb_prop in Hc as [Hc _]. unfold is_cr.
+  destruct (c =? 13); [discriminate|reflexivity].
+Qed.
+
+Lemma tchar_not c : cs_TCHAR c = true -> (c =? 10) = false /\ (c =? 13) = false /\ (c =? 32) = false /\ (c =? 9) = false.
+Proof. intros H. destruct (tchar_facts c H) as (A & _). unfold c_isspace in A. lia. Qed.
+
+Lemma existsb_app' {A} (p : A -> bool) a b : existsb p (a ++ b) = existsb p a || existsb p b.
+Proof. apply existsb_app. Qed.
+
+Lemma name_nocr nm : forallb cs_TCHAR nm = true -> existsb is_cr nm = false.
+Proof.
+  induction nm as [|c r IH]; intros H; [reflexivity|]. cbn [forallb existsb] in *. apply andb_prop in H as [Hc Hr].
+  rewrite (IH Hr). destruct (tchar_not c Hc) as (_ & A & _). unfold is_cr. now rewrite A.
+Qed.
+
+Lemma before_colon_name nm rest : forallb cs_TCHAR nm = true ->
+  ref_before_colon (nm ++ 58 :: rest) = Some (nm, rest).
+Proof.
+  induction nm as [|c r IH]; intros H; cbn [app ref_before_colon]; [reflexivity|].
+  cbn [forallb] in H. apply andb_prop in H as [Hc Hr]. destruct (tchar_facts c Hc) as (_ & A & _).
+  now rewrite A, (IH Hr).
+Qed.
+
+Lemma reread_entry relaxed req e : stor e -> single_line (he_value e) ->
+  ref_lines_ok relaxed req true [line_of e] = true /\
+  ref_group_text relaxed [line_of e] = he_name e ++ [58; 32] ++ he_value e /\
+  ref_field relaxed req [line_of e] = Some e.
+Proof.
+  intros (Hne & Ht & Hl & Hc & Hnn & Hvl & Hlt & Hrt) Hs.
+  set (body := he_name e ++ [58; 32] ++ he_value e).
+  assert (Hec : ref_ends_cr (line_of e) = true) by (unfold ref_ends_cr, line_of; now rewrite last_is_snoc).
+  assert (Hb : ref_body (line_of e) = body).
+  { unfold ref_body. rewrite Hec. unfold line_of. apply strip_last_snoc. }
+  assert (Hnc : existsb is_cr body = false).
+  { unfold body. rewrite !existsb_app'. rewrite (name_nocr _ Ht), (single_line_nocr _ Hs). reflexivity. }
+  assert (Hnotcr : forallb is_cr body = false).
+  { unfold body. destruct (he_name e) as [|c r]; [contradiction|]. cbn [app forallb].
+    cbn [forallb] in Ht. apply andb_prop in Ht as [Hc0 _]. destruct (tchar_not c Hc0) as (_ & A & _).
+    unfold is_cr. now rewrite A. }
+  assert (Htext : ref_line_text relaxed (line_of e) = body).
+  { unfold ref_line_text. rewrite Hb. destruct relaxed; [now apply cr_map_id|reflexivity]. }
+  split; [|split].
+  - cbn [ref_lines_ok]. unfold ref_line_ok, ref_has_bare_cr. rewrite Hb, Hnc, Hnotcr.
+    rewrite !andb_false_r. cbn [negb andb orb]. now rewrite orb_true_r.
+  - cbn [ref_group_text]. exact Htext.
+  - unfold ref_field. cbn [ref_group_text]. rewrite Htext. unfold ref_split, body.
+    rewrite (before_colon_name _ _ Ht).
+    assert (Hlast : last_is c_isspace (he_name e) = false).
+    { destruct (last_is c_isspace (he_name e)) eqn:El; [|reflexivity].
+      destruct (last_is_forall _ _ _ Ht El) as (c & Hc1 & Hc2). destruct (tchar_facts c Hc1) as (A & _). congruence. }
+    replace (if req then he_name e else ref_trim_right (he_name e)) with (he_name e)
+      by (destruct req; [reflexivity|rewrite trim_right_rtrim; symmetry; now apply rtrim_no_trail]).
+    replace (lenN (he_name e) =? 0) with false by (destruct (he_name e); [contradiction|cbn [lenN]; lia]).
+    replace (65534 <? lenN (he_name e)) with false by lia. rewrite Ht. cbn [orb negb].
+    assert (Hv : ref_trim (32 :: he_value e) = he_value e).
+    { unfold ref_trim. rewrite trim_right_rtrim, trim_left_ltrim.
+      replace (ltrim (32 :: he_value e)) with (ltrim (he_value e)) by (unfold ltrim; reflexivity).
+      now rewrite Hlt, Hrt. }
+    rewrite Hv. replace (65534 <? lenN (he_value e)) with false by lia.
+    rewrite Hc. cbn [lenN existsb]. unfold ref_has_bare_cr. rewrite Hb, Hnc. cbn [orb andb N.ltb].
+    destruct e; reflexivity.
+Qed.
+
+Lemma line_of_not_cont e : stor e -> ref_is_cont (line_of e) = false.
+Proof.
+  intros (Hne & Ht & _). unfold line_of. destruct (he_name e) as [|c r]; [contradiction|].
+  cbn [app ref_is_cont]. cbn [forallb] in Ht. apply andb_prop in Ht as [Hc _].
+  destruct (tchar_not c Hc) as (_ & _ & A & B). now rewrite A, B.
+Qed.
+
+Lemma groups_of_lines es : Forall stor es -> ref_groups (map line_of es) = map (fun e => [line_of e]) es.
+Proof.
+  induction es as [|e es IH]; intros H; [reflexivity|]. pose proof (Forall_inv_tail H) as Ht.
+  cbn [map]. rewrite ref_groups_cons, (IH Ht). destruct es as [|e2 es']; [reflexivity|].
+  cbn [map ref_next_is_cont]. now rewrite (line_of_not_cont e2 (Forall_inv Ht)).
+Qed.
+
+Lemma process_of_entries relaxed req : forall es, Forall stor es -> Forall (fun e => single_line (he_value e)) es ->
+  ref_process relaxed req (map (fun e => [line_of e]) es) = Some es.
+Proof.
+  induction es as [|e es IH]; intros Hs Hl; [reflexivity|]. cbn [map ref_process].
+  destruct (reread_entry relaxed req e (Forall_inv Hs) (Forall_inv Hl)) as (A & B & C).
+  rewrite A, B, C. cbn [negb]. rewrite (IH (Forall_inv_tail Hs) (Forall_inv_tail Hl)).
+  destruct (Forall_inv Hs) as (Hne & _). destruct (he_name e); [contradiction|reflexivity].
+Qed.
+
+Lemma line_of_nolf e : stor e -> single_line (he_value e) -> nolf (line_of e).
+Proof.
+  intros (_ & Ht & _) Hs. unfold nolf, line_of. rewrite !forallb_app. cbn [forallb].
+  rewrite (single_line_nolf _ Hs), andb_true_r. cbn [andb].
+  rewrite (forallb_tchar_imp (fun c => negb (c =? 10)) _ ltac:(intros c H; destruct (tchar_not c H) as (A & _); now rewrite A) Ht).
+  reflexivity.
+Qed.
+
+Lemma line_of_NN e : stor e -> NN (line_of e).
+Proof.
+  intros (_ & Ht & _ & _ & Hv & _). unfold line_of. apply NN_app; split; [|reflexivity].
+  apply NN_app; split; [|apply NN_app; split; [reflexivity|exact Hv]].
+  apply (forallb_tchar_imp (fun c => negb (c =? 0))); [|exact Ht].
+  intros c H. destruct (tchar_facts c H) as (_ & _ & A). now rewrite A.
+Qed.
+
+Lemma NN_join ls : Forall NN ls -> NN (join_lines ls).
+Proof.
+  induction ls as [|x xs IH]; intros H; [reflexivity|]. unfold join_lines. cbn [map concat].
+  apply NN_app; split; [apply NN_app; split; [exact (Forall_inv H)|reflexivity]|exact (IH (Forall_inv_tail H))].
+Qed.
+
+Lemma NN_nonul l : NN l -> existsb (N.eqb 0) l = false.
+Proof.
+  induction l as [|c r IH]; intros H; [reflexivity|]. unfold NN in *. cbn [forallb existsb] in *.
+  apply andb_prop in H as [Hc Hr]. rewrite (IH Hr). rewrite N.eqb_sym. destruct (c =? 0); [discriminate|reflexivity].
+Qed.
+
+(* packing single-line stored entries and reading the bytes again returns the entries *)
+Theorem reread_pack relaxed req es : Forall stor es -> Forall (fun e => single_line (he_value e)) es ->
+  h_block_fields relaxed req (h_pack es) = Some es.
+Proof.
+  intros Hs Hl. rewrite block_fields_is_reference. unfold ref_fields. rewrite pack_is_join.
+  assert (Hnn : Forall NN (map line_of es)).
+  { apply Forall_forall. intros x Hx. apply in_map_iff in Hx as (e & <- & He). apply line_of_NN.
+    rewrite Forall_forall in Hs. now apply Hs. }
+  rewrite (NN_nonul _ (NN_join _ Hnn)).
+  assert (Hlines : ref_lines (join_lines (map line_of es)) = Some (map line_of es)).
+  { apply ref_lines_exact. split; [reflexivity|]. apply Forall_forall. intros x Hx.
+    apply in_map_iff in Hx as (e & <- & He). rewrite Forall_forall in Hs, Hl. apply line_of_nolf; auto. }
+  rewrite Hlines, (groups_of_lines es Hs). now apply process_of_entries.
+Qed.
+
+(* ---- the Content-Length interpreter on re-reading ---- *)
+Definition flag (st : clst) : bool := cl_sawBad st || cl_needsSan st.
+
+Lemma cv_flag relaxed st item :
+  (flag st = true -> flag (snd (check_value relaxed st item)) = true) /\
+  (fst (check_value relaxed st item) = false -> flag (snd (check_value relaxed st item)) = true).
+Proof.
+  rewrite check_value_unfold. unfold flag. destruct (cv_parse relaxed item) as [v|]; cbn [fst snd].
+  - destruct (cl_sawGood st); cbn [fst snd cv_dup cv_first cl_sawBad cl_needsSan].
+    + split; intros _; apply orb_true_r.
+    + split; [auto|discriminate].
+  - cbn [set_bad cl_sawBad]. split; reflexivity.
+Qed.
+
+Lemma ci_flag relaxed : forall items st, flag st = true -> flag (check_items relaxed st items) = true.
+Proof.
+  induction items as [|raw more IH]; intros st H; cbn [check_items]; [exact H|].
+  destruct (rtrim raw) as [|x xs]; [exact H|].
+  pose proof (proj1 (cv_flag relaxed st (x :: xs)) H) as H1.
+  destruct (check_value relaxed st (x :: xs)) as [ok st']. cbn [snd] in H1.
+  destruct (negb ok && cl_sawBad st'); [exact H1|now apply IH].
+Qed.
+
+Lemma flag_set_san st : flag (set_san st) = true.
+Proof. unfold flag, set_san. cbn. apply orb_true_r. Qed.
+
+Lemma cf_flag relaxed st v :
+  (flag st = true -> flag (snd (check_field relaxed st v)) = true) /\
+  (fst (check_field relaxed st v) = false -> flag (snd (check_field relaxed st v)) = true).
+Proof.
+  unfold check_field. destruct (cl_sawBad st) eqn:Eb.
+  - cbn [fst snd]. unfold flag. rewrite Eb. split; reflexivity.
+  - destruct (has_comma v).
+    + unfold check_list. destruct relaxed; cbn [negb fst snd].
+      * split; intros _; apply ci_flag, flag_set_san.
+      * unfold flag, set_bad. cbn. split; reflexivity.
+    + apply cv_flag.
+Qed.
+
+Lemma loop_flag relaxed : forall es st1 k st, h_entries_loop relaxed es st1 = Some (k, st) ->
+  flag st1 = true -> flag st = true.
+Proof.
+  induction es as [|e es IH]; intros st1 k st; cbn [h_entries_loop].
+  - intros [= <- <-]. auto.
+  - destruct (he_id e =? ID_CL).
+    + pose proof (proj1 (cf_flag relaxed st1 (he_value e))) as F.
+      destruct (check_field relaxed st1 (he_value e)) as [kp st2]. cbn [snd] in F. destruct kp.
+      * destruct (h_entries_loop relaxed es st2) as [[k' s']|] eqn:E; [|discriminate].
+        intros [= <- <-] H. exact (IH _ _ _ E (F H)).
+      * destruct relaxed; [|discriminate]. intros E H. exact (IH _ _ _ E (F H)).
+    + destruct (h_entries_loop relaxed es st1) as [[k' s']|] eqn:E; [|discriminate].
+      intros [= <- <-] H. exact (IH _ _ _ E H).
+Qed.
+
+Lemma loop_idem relaxed : forall es st0 kept st, h_entries_loop relaxed es st0 = Some (kept, st) ->
+  flag st = false -> h_entries_loop relaxed kept st0 = Some (kept, st).
+Proof.
+  induction es as [|e es IH]; intros st0 kept st; cbn [h_entries_loop].
+  - intros [= <- <-] _. reflexivity.
+  - destruct (he_id e =? ID_CL) eqn:Ei.
+    + pose proof (proj2 (cf_flag relaxed st0 (he_value e))) as F.
+      destruct (check_field relaxed st0 (he_value e)) as [kp st2] eqn:Ec. cbn [fst snd] in F. destruct kp.
+      * destruct (h_entries_loop relaxed es st2) as [[k' s']|] eqn:E; [|discriminate].
+        intros [= <- <-] H. cbn [h_entries_loop]. rewrite Ei, Ec, (IH _ _ _ E H). reflexivity.
+      * destruct relaxed; [|discriminate]. intros E H.
+        rewrite (loop_flag true _ _ _ _ E (F eq_refl)) in H. discriminate.
+    + destruct (h_entries_loop relaxed es st0) as [[k' s']|] eqn:E; [|discriminate].
+      intros [= <- <-] H. cbn [h_entries_loop]. rewrite Ei, (IH _ _ _ E H). reflexivity.
+Qed.
+
+Definition good_range (st : clst) : Prop := cl_sawGood st = true -> (0 <= cl_value st < two63)%Z.
+
+Lemma cv_range relaxed st item : good_range st -> good_range (snd (check_value relaxed st item)).
+Proof.
+  intros G. rewrite check_value_unfold. destruct (cv_parse relaxed item) as [v|] eqn:E; cbn [snd].
+  - destruct (cl_sawGood st) eqn:Eg; cbn [snd]; unfold good_range; cbn [cv_dup cv_first cl_sawGood cl_value]; intros _.
+    + now apply G.
+    + apply cv_parse_token in E. destruct E as (w & ds & t & _ & _ & _ & Hd & _ & <- & Hlt).
+      split; [now apply dec_val_nonneg|exact Hlt].
+  - exact G.
+Qed.
+
+Lemma ci_range relaxed : forall items st, good_range st -> good_range (check_items relaxed st items).
+Proof.
+  induction items as [|raw more IH]; intros st G; cbn [check_items]; [exact G|].
+  destruct (rtrim raw) as [|x xs]; [exact G|]. pose proof (cv_range relaxed st (x :: xs) G) as G1.
+  destruct (check_value relaxed st (x :: xs)) as [ok st']. cbn [snd] in G1.
+  destruct (negb ok && cl_sawBad st'); [exact G1|now apply IH].
+Qed.
+
+Lemma cf_range relaxed st v : good_range st -> good_range (snd (check_field relaxed st v)).
+Proof.
+  intros G. unfold check_field. destruct (cl_sawBad st); [exact G|]. destruct (has_comma v).
+  - unfold check_list. destruct relaxed; cbn [negb snd]; [apply ci_range|]; exact G.
+  - now apply cv_range.
+Qed.
+
+Lemma loop_range relaxed : forall es st0 k st, h_entries_loop relaxed es st0 = Some (k, st) ->
+  good_range st0 -> good_range st.
+Proof.
+  induction es as [|e es IH]; intros st0 k st; cbn [h_entries_loop].
+  - intros [= <- <-]. auto.
+  - destruct (he_id e =? ID_CL).
+    + pose proof (cf_range relaxed st0 (he_value e)) as F.
+      destruct (check_field relaxed st0 (he_value e)) as [kp st2]. cbn [snd] in F. destruct kp.
+      * destruct (h_entries_loop relaxed es st2) as [[k' s']|] eqn:E; [|discriminate].
+        intros [= <- <-] H. exact (IH _ _ _ E (F H)).
+      * destruct relaxed; [|discriminate]. intros E H. exact (IH _ _ _ E (F H)).
+    + destruct (h_entries_loop relaxed es st0) as [[k' s']|] eqn:E; [|discriminate].
+      intros [= <- <-] H. exact (IH _ _ _ E H).
+Qed.
+
+Lemma digits_token relaxed v : (0 <= v < two63)%Z -> is_token relaxed (int64_to_a v) v.
+Proof.
+  intros Hv. unfold int64_to_a.
+  assert (Hn : Z.to_N v < 10 ^ N.of_nat 20) by (unfold two63 in Hv; change (10 ^ N.of_nat 20) with 100000000000000000000; lia).
+  destruct (dec_digits_spec 19 _ Hn) as (Hval & Hd & Hne).
+  exists [], (dec_digits 20 (Z.to_N v)), []. rewrite app_nil_r. cbn [app forallb].
+  repeat split; try assumption; [rewrite Hval; lia|lia].
+Qed.
+
+Lemma cf_digits relaxed v : (0 <= v < two63)%Z ->
+  check_field relaxed cl_init (int64_to_a v) = (true, cv_first cl_init v).
+Proof.
+  intros Hv. pose proof (digits_token relaxed v Hv) as T. unfold check_field. cbn [cl_init cl_sawBad].
+  rewrite (token_no_comma _ _ _ T), check_value_unfold. apply cv_parse_token in T. now rewrite T.
+Qed.
+
+Lemma loop_nocl relaxed : forall es st, forallb not_cl es = true -> h_entries_loop relaxed es st = Some (es, st).
+Proof.
+  induction es as [|e es IH]; intros st H; [reflexivity|]. cbn [forallb] in H. apply andb_prop in H as [He Hr].
+  cbn [h_entries_loop]. unfold not_cl in He. destruct (he_id e =? ID_CL); [discriminate|]. now rewrite (IH st Hr).
+Qed.
+
+Lemma loop_app_nocl relaxed : forall l r st, forallb not_cl l = true ->
+  h_entries_loop relaxed (l ++ r) st =
+  match h_entries_loop relaxed r st with Some (k, s) => Some (l ++ k, s) | None => None end.
+Proof.
+  induction l as [|e l IH]; intros r st H; cbn [app].
+  - destruct (h_entries_loop relaxed r st) as [[k s]|]; reflexivity.
+  - cbn [forallb] in H. apply andb_prop in H as [He Hr]. cbn [h_entries_loop]. unfold not_cl in He.
+    destruct (he_id e =? ID_CL); [discriminate|]. rewrite (IH r st Hr).
+    destruct (h_entries_loop relaxed r st) as [[k s]|]; reflexivity.
+Qed.
+
+Lemma forallb_filter_self {A} (f : A -> bool) l : forallb f (filter f l) = true.
+Proof. apply forallb_forall. intros x Hx. now apply filter_In in Hx as [_ Hx]. Qed.
+Lemma forallb_filter_keep {A} (f g : A -> bool) l : forallb f l = true -> forallb f (filter g l) = true.
+Proof. rewrite !forallb_forall. intros H x Hx. apply filter_In in Hx as [Hx _]. now apply H. Qed.
+
+Lemma ids_differ : (ID_CL =? ID_TE) = false.
+Proof. vm_compute. reflexivity. Qed.
+
+Lemma has_te_filter_cl l : h_has_id ID_TE (filter not_cl l) = h_has_id ID_TE l.
+Proof.
+  induction l as [|e l IH]; [reflexivity|]. cbn [filter]. unfold not_cl at 1.
+  destruct (he_id e =? ID_CL) eqn:E; cbn [negb].
+  - unfold h_has_id in *. cbn [existsb]. rewrite IH. apply N.eqb_eq in E. rewrite E, ids_differ. reflexivity.
+  - unfold h_has_id in *. cbn [existsb]. now rewrite IH.
+Qed.
+
+Definition not_te (e : hentry) : bool := negb (he_id e =? ID_TE).
+
+(* the entries stored by one parse are re-accepted unchanged by the Content-Length stage of a second parse *)
+Lemma reinterpret relaxed proh fs kept st :
+  h_entries_loop relaxed fs cl_init = Some (kept, st) ->
+  exists kept2 st2,
+    h_entries_loop relaxed (hr_entries (h_post_process proh kept st)) cl_init = Some (kept2, st2) /\
+    hr_entries (h_post_process proh kept2 st2) = hr_entries (h_post_process proh kept st).
+Proof.
+  intros E.
+  assert (Hplain : forall es, forallb not_cl es = true -> h_has_id ID_TE es = false -> proh = false ->
+            exists kept2 st2, h_entries_loop relaxed es cl_init = Some (kept2, st2) /\
+              hr_entries (h_post_process proh kept2 st2) = es).
+  { intros es Hc Ht ->. exists es, cl_init. split; [now apply loop_nocl|].
+    unfold h_post_process. rewrite Ht. reflexivity. }
+  unfold h_post_process at 1 3. destruct proh.
+  - cbn [hr_entries]. set (es' := h_del_id ID_TE (h_del_id ID_CL kept)).
+    assert (Hc : forallb not_cl es' = true) by (apply forallb_filter_keep, forallb_filter_self).
+    exists es', cl_init. split; [now apply loop_nocl|]. unfold h_post_process. cbn [hr_entries].
+    rewrite del_cl_is_filter, (filter_all _ _ Hc). unfold es', h_del_id at 1.
+    apply filter_all, forallb_filter_self.
+  - destruct (h_has_id ID_TE kept) eqn:Ete; [|destruct (cl_sawBad st) eqn:Eb; [|destruct (cl_needsSan st) eqn:Es]];
+      cbn [hr_entries].
+    + rewrite del_cl_is_filter. exists (filter not_cl kept), cl_init.
+      split; [apply loop_nocl, forallb_filter_self|]. unfold h_post_process.
+      rewrite has_te_filter_cl, Ete. cbn [hr_entries]. rewrite del_cl_is_filter.
+      apply filter_all, forallb_filter_self.
+    + rewrite del_cl_is_filter. apply Hplain; [apply forallb_filter_self| |reflexivity].
+      now rewrite has_te_filter_cl.
+    + rewrite del_cl_is_filter. destruct (cl_sawGood st) eqn:Eg.
+      * assert (Hr : (0 <= cl_value st < two63)%Z).
+        { apply (loop_range relaxed fs cl_init kept st E); [discriminate|exact Eg]. }
+        set (l := filter not_cl kept). exists (l ++ [h_cl_entry (cl_value st)]), (cv_first cl_init (cl_value st)).
+        split.
+        -- rewrite loop_app_nocl by apply forallb_filter_self. cbn [h_entries_loop h_cl_entry he_id he_value].
+           rewrite N.eqb_refl, (cf_digits relaxed _ Hr). reflexivity.
+        -- unfold h_post_process.
+           assert (Hte : h_has_id ID_TE (l ++ [h_cl_entry (cl_value st)]) = false).
+           { unfold h_has_id. rewrite existsb_app. fold (h_has_id ID_TE l). unfold l. rewrite has_te_filter_cl, Ete.
+             cbn [existsb h_cl_entry he_id orb]. now rewrite ids_differ. }
+           rewrite Hte. reflexivity.
+      * rewrite app_nil_r. apply Hplain; [apply forallb_filter_self| |reflexivity].
+        now rewrite has_te_filter_cl.
+    + exists kept, st. split.
+      * apply (loop_idem relaxed fs cl_init kept st E). unfold flag. now rewrite Eb, Es.
+      * unfold h_post_process. now rewrite Ete, Eb, Es.
+Qed.
+
+Lemma in_loop_kept relaxed : forall es st kept st', h_entries_loop relaxed es st = Some (kept, st') ->
+  forall e, In e kept -> In e es.
+Proof.
+  induction es as [|e0 es IH]; intros st kept st'; cbn [h_entries_loop].
+  - intros [= <- <-] e [].
+  - destruct (he_id e0 =? ID_CL).
+    + destruct (check_field relaxed st (he_value e0)) as [kp st1]. destruct kp.
+      * destruct (h_entries_loop relaxed es st1) as [[k' s']|] eqn:E; [|discriminate].
+        intros [= <- <-] e [<-|H]; [now left|right; exact (IH _ _ _ E e H)].
+      * destruct relaxed; [|discriminate]. intros E e H. right. exact (IH _ _ _ E e H).
+    + destruct (h_entries_loop relaxed es st) as [[k' s']|] eqn:E; [|discriminate].
+      intros [= <- <-] e [<-|H]; [now left|right; exact (IH _ _ _ E e H)].
+Qed.
+
+Lemma lenN_dec_digits : forall fuel n, lenN (dec_digits fuel n) <= N.of_nat fuel.
+Proof.
+  induction fuel as [|k IH]; intros n; [cbn; lia|]. rewrite dec_digits_S. destruct (n <? 10).
+  - cbn [lenN]. lia.
+  - rewrite lenN_snoc. specialize (IH (n / 10)). lia.
+Qed.
+
+Lemma digits_nonspace ds : forallb c_isdigit ds = true -> forallb (fun c => negb (c_isspace c) && negb (c =? 0)) ds = true.
+Proof. apply forallb_imp. intros c H. unfold c_isdigit, c_isspace in *. lia. Qed.
+
+Lemma nonspace_trimmed v : forallb (fun c => negb (c_isspace c) && negb (c =? 0)) v = true ->
+  NN v /\ ltrim v = v /\ rtrim v = v.
+Proof.
+  intros H. split; [|split].
+  - revert H. apply forallb_imp. intros c Hc. now apply andb_prop in Hc as [_ Hc].
+  - destruct v as [|c r]; [reflexivity|]. cbn [forallb] in H. apply andb_prop in H as [Hc _].
+    apply andb_prop in Hc as [Hc _]. apply ltrim_nonspace. now destruct (c_isspace c).
+  - apply rtrim_no_trail. destruct (last_is c_isspace v) eqn:El; [|reflexivity].
+    destruct (last_is_forall _ _ _ H El) as (c & Hc & Hs). rewrite Hs in Hc. discriminate.
+Qed.
+
+Lemma cl_entry_stor v : (0 <= v < two63)%Z -> stor (h_cl_entry v) /\ single_line (he_value (h_cl_entry v)).
+Proof.
+  intros Hv. destruct (digits_token true v Hv) as (w & ds & t & _). clear w ds t.
+  assert (Hn : Z.to_N v < 10 ^ N.of_nat 20) by (unfold two63 in Hv; change (10 ^ N.of_nat 20) with 100000000000000000000; lia).
+  destruct (dec_digits_spec 19 _ Hn) as (_ & Hd & _).
+  destruct (nonspace_trimmed _ (digits_nonspace _ Hd)) as (A & B & C).
+  assert (Hname : name_content_length <> [] /\ forallb cs_TCHAR name_content_length = true /\ lenN name_content_length <= 65534)
+    by (vm_compute; repeat split; discriminate).
+  destruct Hname as (N1 & N2 & N3). destruct (canon_stor _ N1 N2 N3) as (S1 & S2 & S3 & S4).
+  split.
+  - unfold stor, h_cl_entry. cbn [he_id he_name he_value]. unfold int64_to_a.
+    repeat split; try assumption. pose proof (lenN_dec_digits 20 (Z.to_N v)). lia.
+  - unfold single_line, h_cl_entry, int64_to_a. cbn [he_value]. revert Hd. apply forallb_imp.
+    intros c H. unfold c_isdigit in H. lia.
+Qed.
+
+(* every entry list one parse stores consists of storable entries *)
+Lemma parsed_entries_stor relaxed req proh block r : h_parse relaxed req proh block = Some r ->
+  Forall stor (hr_entries r).
+Proof.
+  unfold h_parse. rewrite block_fields_is_reference.
+  destruct (ref_fields relaxed req block) as [fs|] eqn:Ef; [|discriminate].
+  destruct (h_entries_loop relaxed fs cl_init) as [[kept st]|] eqn:E; [|discriminate]. intros [= <-].
+  pose proof (ref_fields_stor _ _ _ _ Ef) as Sfs.
+  assert (Sk : Forall stor kept).
+  { apply Forall_forall. intros e He. rewrite Forall_forall in Sfs. apply Sfs. exact (in_loop_kept _ _ _ _ _ E e He). }
+  assert (Sf : forall f, Forall stor (filter f kept)).
+  { intros f. apply Forall_forall. intros e He. apply filter_In in He as [He _]. rewrite Forall_forall in Sk. now apply Sk. }
+  unfold h_post_process. destruct proh; cbn [hr_entries].
+  - unfold h_del_id at 1. apply Forall_forall. intros e He. apply filter_In in He as [He _].
+    pose proof (Sf not_cl) as S. rewrite Forall_forall in S. now apply S.
+  - destruct (h_has_id ID_TE kept); [|destruct (cl_sawBad st); [|destruct (cl_needsSan st)]]; cbn [hr_entries];
+      try apply Sf; [|exact Sk].
+    apply Forall_app. split; [apply Sf|]. destruct (cl_sawGood st) eqn:Eg; [|constructor].
+    constructor; [|constructor]. apply cl_entry_stor.
+    apply (loop_range relaxed fs cl_init kept st E); [discriminate|exact Eg].
+Qed.
+
+(* parse (pack (parse block)) = parse block on the stored entries, for results whose values are single lines *)
+Theorem pack_parse_roundtrip relaxed req proh block r :
+  h_parse relaxed req proh block = Some r ->
+  Forall (fun e => single_line (he_value e)) (hr_entries r) ->
+  exists r', h_parse relaxed req proh (h_pack (hr_entries r)) = Some r' /\ hr_entries r' = hr_entries r.
+Proof.
+  intros H Hl. pose proof (parsed_entries_stor _ _ _ _ _ H) as Hs.
+  unfold h_parse at 1. rewrite (reread_pack relaxed req _ Hs Hl).
+  unfold h_parse in H. destruct (h_block_fields relaxed req block) as [fs|]; [|discriminate].
+  destruct (h_entries_loop relaxed fs cl_init) as [[kept st]|] eqn:E; [|discriminate]. injection H as <-.
+  destruct (reinterpret relaxed proh fs kept st E) as (kept2 & st2 & E2 & R2).
+  rewrite E2. eexists. split; [reflexivity|exact R2].
+Qed.
